@@ -45,7 +45,7 @@ REQUIRED_COUNTERS = {"collocate.calls": 300, "collocate.binned_path": 4, "histor
 SHARD_TIMEOUT = {"quick": 900, "thorough": 7200}
 
 CLASSES = ["random", "threshold", "threshold", "dup", "first-first", "none", "nan", "single", "grid",
-           "poles", "dateline", "subsecond"]
+           "poles", "dateline", "subsecond", "dateline-split", "pole-split"]
 
 
 def shards(tier, seed):
@@ -114,6 +114,13 @@ def gen_spec(rng, big=False):
     if cls == "dateline":
         g["cls"] = rng.choice(["random", "threshold"])
         g["region"] = "dateline"
+    if cls in ("dateline-split", "pole-split"):
+        # whole point sets on opposite sides of the date line / in opposite longitude sectors at a pole
+        g["cls"] = "random"
+        g["split"] = cls.split("-")[0]
+        g["region"] = "dateline" if g["split"] == "dateline" else "pole"
+        g["spread_km"] = rng.choice([0.4, 1.0, 2.0]) * r
+        g["span_ns"] = g["mi_ns"]
     if big:
         g["n1"], g["n2"] = rng.choice([(1100, 1000), (1500, 700), (600, 2400), (3000, 400)])
         g["spread_km"] = 40 * r
@@ -124,6 +131,8 @@ def gen_spec(rng, big=False):
     else:
         g["n1"] = rng.choice([1, 2, 3, 5, 12, 40, 150])
         g["n2"] = rng.choice([1, 2, 3, 5, 12, 40, 150, 400])
+        if g.get("split"):
+            g["n1"], g["n2"] = rng.choice([(1, 1), (3, 2), (12, 12), (40, 5)])
     if cls == "first-first":
         g["n1"], g["n2"] = max(2, g["n1"]), max(2, g["n2"])
         g["shuffle_rows"] = False
@@ -286,7 +295,7 @@ def check_call(rec, coll, case, p, s, call, tag="collocate"):
         return
     if must and M.near_threshold(info, g["mi_ns"], g["r_km"]):
         path = "binned" if P["time"].size * S["time"].size > 1000000 else "direct"
-        rec.nontriv([tag, g["cls"], g.get("region"), path, swapped, case["window"],
+        rec.nontriv([tag, g["cls"], g.get("region"), g.get("split"), path, swapped, case["window"],
                      case["layout1"]["kind"], type(call["r"]).__name__, type(call["mi"]).__name__],
                     [g["seed"], call])
         rec.count("collocate.nontrivial")
